@@ -11,6 +11,8 @@
 #     data packet: ACK TP(seq+1, NumP=1) / ACK TP(seq+1, NumP=0) / retry ACK TP(seq, Rty=1, NumP=1); optionally an ACK TP
 #     addressed to another endpoint at any time,
 #   * tx.ready (only when a tx word is presented) and header_source.ready (only when a header is presented).
+# Long-run configurations take the endpoint across the 31 -> 0 sequence wrap: ~35 (or ~69) packets, with these choices
+# free only in a window of acknowledged-packet counts around the wrap and a fixed eager schedule elsewhere.
 #
 # Oracle = a reference written from the statement / USB 3.2 chapter 8.10-8.12 (bulk IN, no bursting):
 #   the stream script is cut into packets (max-packet-size packets, then a short packet, or a ZLP when the transfer
@@ -80,6 +82,7 @@ class InEpSpec(Spec):
         self.words = self.pk = None          # selected per transition (see apply)
         self.fields = cfg.get("checks", "flow") == "fields"
         self.other = bool(cfg.get("other"))
+        self.window = tuple(cfg["window"]) if cfg.get("window") else None
         self.backpressure = bool(cfg.get("backpressure", True))
         self.time_budget = 200 if tier == "quick" else 850      # the quick spaces take a few seconds; generous against machine load
         self.max_states = 4_000_000
@@ -124,16 +127,20 @@ class InEpSpec(Spec):
         sid, sp, offering, acked, hst, rxn, must, blocked, since, txv, hqv = env
         if sid < 0: return [("script", i) for i in range(len(self.scripts))]
         self.words = self.W[sid]
-        offers = (1,) if offering else ((0, 1) if sp < len(self.words) else (0,))
+        # long-run configurations: full nondeterminism only while `acked` is inside the window around the sequence
+        # wrap; outside it the producer is always ahead, the host polls / acknowledges at once and nothing stalls
+        free = self.window is None or self.window[0] <= acked <= self.window[1]
+        more = sp < len(self.words)
+        offers = (1,) if offering else (((0, 1) if free else (1,)) if more else (0,))
         if hst == IDLE:
-            host = (None,) if blocked else (None, "IN")
+            host = (None,) if blocked else ((None, "IN") if free else ("IN",))
         elif hst == GOT:
-            host = (None, "ACKIN", "ACK", "RETRY")
+            host = (None, "ACKIN", "ACK", "RETRY") if free else ("ACKIN",)
         else:
             host = (None,)
         if self.other: host = host + ("OTHER",)
-        txrs = (1, 0) if (txv and self.backpressure) else (1,)
-        hqrs = (1, 0) if hqv else (1,)
+        txrs = (1, 0) if (txv and self.backpressure and free) else (1,)
+        hqrs = (1, 0) if (hqv and free) else (1,)
         return [(o, h, t, q) for h in host for o in offers for t in txrs for q in hqrs]
 
     def assumptions(self):
@@ -146,7 +153,10 @@ class InEpSpec(Spec):
                 "tx becomes valid / tx_zlp is strobed, which is when the data packet transmitter latches them",
                 f"an NRDY is accepted as legitimate unless the packet was complete at least {HOLD} cycles before the IN request or the request is a retry",
                 f"liveness bounds: {LIVE} cycles (+ packet length) with tx.ready and header_source.ready held high",
-                "ep_reset stays low; fewer than 32 packets per run (no sequence wrap)",
+                "ep_reset stays low",
+                "long-run configurations (sequence wrap at 32): the choices are free only while the number of acknowledged packets "
+                "is inside the stated window; outside it the producer always has the next word ready, the host requests / "
+                "acknowledges (ACK+IN) immediately and tx / header queue never stall",
                 "unsolicited ERDY TPs (endpoint not flow-controlled) are not counted as violations"]
 
     def drive(self, offering_word, host, acked, txr, hqr):
@@ -237,6 +247,8 @@ class InEpSpec(Spec):
                 raise Violation("zlp-during-data-packet", dict(ctx))
             hst = GOT
             self.cover["zlp"] += 1
+            if acked >= 32: self.cover["zlp-after-wrap"] += 1
+            if acked and (acked & 31) == 0: self.cover["sequence-wrap"] += 1
         held = None
         if o.tx_valid:
             if hst == WAIT:                                  # a data packet starts
@@ -250,6 +262,7 @@ class InEpSpec(Spec):
                     if o.tx_ep != EP: raise Violation("dp-endpoint-number", dict(ctx, got=o.tx_ep, want=EP))
                 hst, rxn = RECV, 0
                 self.cover["dp"] += 1
+                if acked and (acked & 31) == 0: self.cover["sequence-wrap"] += 1
             elif hst != RECV:
                 raise Violation("data-packet-without-in-request", dict(ctx, zlp=0))
             if txr:
@@ -321,7 +334,10 @@ class InEpSpec(Spec):
         return f"{'W' if offer else '-'}{'/' + host if host else ''}{'' if txr else '/tx-stall'}{'' if hqr else '/hq-stall'}"
 
     def goals(self):
-        return ["in-request", "dp", "dp-complete", "nrdy", "retry", "ack+in", "ack-final", "short-packet", "zlp", "tx-backpressure"]
+        g = ["in-request", "dp", "dp-complete", "nrdy", "erdy", "retry", "ack+in", "ack-final", "short-packet", "zlp",
+             "tx-backpressure", "all-delivered"]
+        if self.window: g += ["sequence-wrap", "zlp-after-wrap"]
+        return g
 
 
 # ----------------------------------------------------------------------------------------------------- module API
@@ -343,6 +359,14 @@ def script_set(name, mps):
     elif name == "pairs":
         lens = [2, mps, mps + 2]
         depth, tails = 2, [0]
+    elif name in ("long", "long-thorough", "long-2wraps"):
+        # many one-word transfers (one short packet each), with full-packet + ZLP pairs placed around packet 31 so
+        # that a short packet, a full packet and a ZLP each get sequence number 31 / 0 in one of the scripts
+        S, F = (3, True), (mps, True)
+        if name == "long-2wraps":
+            return [[S] * 28 + [F, S, F] + [S] * 27 + [F, S, F, S, S]]        # packets 0..68; F at 28,31 and 60,63
+        leads = (27, 28, 29) if name == "long" else (26, 27, 28, 29, 30)
+        return [[S] * n + [F, S, F, S, S, S] for n in leads]
     else:
         raise KeyError(name)
     seqs = [[]]
@@ -365,7 +389,8 @@ def configs(tier):
                 dict(mps=16, scripts="quick", checks="flow", name="mps16:flow"),
                 dict(mps=8, scripts="pairs", checks="fields", name="mps8:fields"),
                 dict(mps=16, scripts="pairs", checks="fields", name="mps16:fields"),
-                dict(mps=8, scripts="pairs", checks="flow", other=1, name="mps8:flow:other-endpoint-traffic")]
+                dict(mps=8, scripts="pairs", checks="flow", other=1, name="mps8:flow:other-endpoint-traffic"),
+                dict(mps=8, scripts="long", checks="fields", window=[29, 34], name="mps8:long-run:sequence-wrap")]
     return [dict(mps=8, scripts="thorough", checks="flow", shard=[i, 3], name=f"mps8:flow:shard{i}") for i in range(3)] + \
            [dict(mps=16, scripts="thorough", checks="flow", shard=[i, 5], name=f"mps16:flow:shard{i}") for i in range(5)] + \
            [dict(mps=32, scripts="quick", checks="flow", name="mps32:flow"),
@@ -373,7 +398,10 @@ def configs(tier):
             dict(mps=8, scripts="quick", checks="fields", name="mps8:fields"),
             dict(mps=16, scripts="quick", checks="fields", name="mps16:fields"),
             dict(mps=8, scripts="quick", checks="flow", other=1, name="mps8:flow:other-endpoint-traffic"),
-            dict(mps=16, scripts="pairs", checks="flow", other=1, name="mps16:flow:other-endpoint-traffic")]
+            dict(mps=16, scripts="pairs", checks="flow", other=1, name="mps16:flow:other-endpoint-traffic"),
+            dict(mps=8, scripts="long-thorough", checks="fields", window=[28, 35], name="mps8:long-run:sequence-wrap"),
+            dict(mps=16, scripts="long-thorough", checks="flow", window=[28, 35], name="mps16:long-run:sequence-wrap"),
+            dict(mps=8, scripts="long-2wraps", checks="flow", window=[62, 65], name="mps8:long-run:two-wraps")]
 
 
 def make(cfg, tier):
